@@ -35,9 +35,30 @@ def optStrFld (j : Json) (k : String) : R (Option String) :=
   | .ok v => optStr v
   | .error _ => pure none
 
+def optInt (j : Json) : R (Option Int) := if j.isNull then pure none else some <$> j.getInt?
+
+/-- `[name, has write method, declared default, declared value, configured default, configured value]`, optionally
+followed by `needscfg, the configured value is not of the datatype` -/
+def parseParam (j : Json) : R PCfg := do
+  match (← arr j) with
+  | [n, w, d, v, cd, cv] =>
+    return { name := ← n.getStr?, hasWrite := ← w.getBool?, clsDefault := ← optInt d, clsValue := ← optInt v,
+             cfgDefault := ← optInt cd, cfgValue := ← optInt cv }
+  | [n, w, d, v, cd, cv, nc, bad] =>
+    return { name := ← n.getStr?, hasWrite := ← w.getBool?, clsDefault := ← optInt d, clsValue := ← optInt v,
+             cfgDefault := ← optInt cd, cfgValue := ← optInt cv, needscfg := ← nc.getBool?, cfgBad := ← bad.getBool? }
+  | _ => throw "bad param"
+
+/-- the parameters of a module description; cases recorded before parameters were part of a case list only the names
+of the parameters with a configured value (write method, declared default 0, value 1 in the configuration) -/
+def parseParams (j : Json) : R (List PCfg) :=
+  match j.getObjVal? "params" with
+  | .ok v => do (← arr v).mapM parseParam
+  | .error _ => do return (← fldStrs j "writes").map wp
+
 def parseMod (j : Json) : R ModCfg := do
   return { name := ← fldStr j "name", cls := ← parseCls (← fldStr j "cls"), exported := ← fldBool j "export",
-           poll := ← fldBool j "poll", writes := ← fldStrs j "writes", atts := ← (← fldArr j "atts").mapM parseAtt,
+           poll := ← fldBool j "poll", params := ← parseParams j, atts := ← (← fldArr j "atts").mapM parseAtt,
            touchEarly := ← fldStrs j "te", touchInit := ← fldStrs j "ti", failEarly := ← fldBool j "fe",
            failInit := ← fldBool j "fi", uri := ← optStr (← fld j "uri"), scan := ← fldStrs j "scan",
            delay := ← fldNat j "delay", writeFail := ← optPairs j "wfail",
@@ -102,9 +123,20 @@ def parseErr (j : Json) : R Err := do
 
 def pairJson (p : String × String) : Json := jstrs [p.1, p.2]
 
+def parseWritten (j : Json) : R (String × String × Int) := do
+  match (← arr j) with
+  | [m, p, v] => return (← m.getStr?, ← p.getStr?, ← v.getInt?)
+  | _ => throw "bad written"
+
+def writtenJson (w : String × String × Int) : Json := jarr [Json.str w.1, Json.str w.2.1, jint w.2.2]
+
 def parseObs (j : Json) : R Obs := do
+  let written ← match j.getObjVal? "written" with
+    | .ok v => (← arr v).mapM parseWritten
+    | .error _ => pure []
   return { modules := ← fldStrs j "modules", errors := ← (← fldArr j "errors").mapM parseErr,
-           log := ← (← fldArr j "log").mapM parseEv, ioDict := ← (← fldArr j "ioDict").mapM parsePair }
+           log := ← (← fldArr j "log").mapM parseEv, ioDict := ← (← fldArr j "ioDict").mapM parsePair,
+           written := written }
 
 /-- the schedule the implementation followed, read off its log: one action per thread event -/
 def schedOf (st : St) (log : List Ev) : List Act :=
@@ -171,7 +203,8 @@ def handle (j : Json) : R Json := do
       else st.log
     return Json.mkObj [("modules", jstrs st.modules), ("errors", jarr (st.errors.map errJson)),
       ("ioDict", jarr (st.ioDict.map pairJson)), ("edges", jarr (st.edges.map pairJson)),
-      ("log", jarr (log.map evJson)), ("oof", Json.bool st.oof), ("shutdown_admitted", Json.bool ok)]
+      ("log", jarr (log.map evJson)), ("written", jarr ((writtenOf st log).map writtenJson)),
+      ("oof", Json.bool st.oof), ("shutdown_admitted", Json.bool ok)]
   | "judge" =>
     let o ← parseObs j
     return Json.mkObj [("failed", jstrs (judge cfg o)),
